@@ -1,0 +1,7 @@
+//go:build verif
+
+// Contracts for package parser, checked by /verif/govc (comment-only; compiled only with -tags verif).
+package parser
+
+//@ func Parse(profileText string) (*profile.Profile, error)
+//@   ensures [C17:non-nil] result1 == nil ==> result0 != nil
